@@ -349,6 +349,17 @@ pub fn check(c: &Case, rec: &mut Rec) -> CheckResult {
         Err(e) => vfail!("finish-error", "finish failed after a history with {} rejected calls: {:?}; {}", n_reject, e, c.show()),
     };
     check_content(&bytes, &accepted, c)?;
+    // no trace at all: the bytes equal those of a builder that only ever saw the accepted calls
+    if n_reject > 0 {
+        let mut clean = B::new(c.kind);
+        for (k, v) in &accepted {
+            if let Err(e) = clean.insert(c.kind, k, *v) {
+                vfail!("harness", "reference build of the accepted pairs failed: {:?}", e);
+            }
+        }
+        let want = clean.finish().map_err(|e| Fail::new("harness", format!("{:?}", e)))?;
+        vensure!(bytes == want, "reject-left-trace", "after {} rejected call(s) the finished FST differs byte-wise from a build of the accepted calls alone ({} vs {} bytes), although its content is the same; {}", n_reject, bytes.len(), want.len(), c.show());
+    }
     if !rec.muted {
         rec.class(&format!("builder:{}", c.kind.name()));
         if n_reject > 0 {
